@@ -18,6 +18,7 @@ func init() {
 		Technique: "who-may-call tables for the four record hooks and their helpers (type-resolved interface-method call sites), dominance rules that place the produce hooks unconditionally before every promise path, store classification of the buffered-fetch fields (every non-empty store paired with hookBuffered, every clearing store followed on all paths by the deferred unbuffered hook of the taken copy), removal-pairing rules for the partial takes, capture analysis of the deferred dispatch closure (no aliasing of the fetch's topic/partition arrays), sibling agreement of the gauge walks, and must-pass rules from every take/discard to the dispatch of the deferred hooks",
 		Explanation: "(1) produce: OnProduceRecordBuffered is called at exactly one site, in Client.produce, for the record parameter, under no condition other than `hooks registered`, and that site dominates every promise path (promiseRecordBeforeBuf/promiseRecord/loadPartsAndPartition/the admission increment) and every return of produce; OnProduceRecordUnbuffered is called at exactly one site, in finishRecordPromise, with (pr.Record, err); every call of a promisedRec's promise is in finishRecordPromise, has the same (pr.Record, err), and is dominated by the unconditional hook dispatch; err is never reassigned; finishRecordPromise is called only by finishPromises with (pr, b.err, b.beforeBuf) (C01 proves each promise runs exactly once); producer.init registers every hook implementing the interfaces (independent type assertions); produce-rebuffer-once (own rule, complementary to C01's bufferRecord-processed-contract which requires constant results): recBuf.bufferRecord - whose false result makes doPartition offer the same record again - returns a value that is provably true (three-valued evaluation of the returned expression under the branch facts of the path) on every path that failed the record with promiseRecord or appended it, provably false on the arm where tryBuffer aborted without touching it, and true everywhere else; produce-close-sweep (rule function shared with C13's close-sweep): no iteration of failBufferedRecords' topic loop or partition loop can skip failAllRecords (must-pass search from each loop body to its loop head: a `continue` or a guard is reported), so every record still buffered at Close is unbuffered; only the new-batch tryBuffer receives the abort flag; bufferRecord is called only by doPartition, whose re-offer is under `!processed`, passes false and is not in a loop; " +
 			"(2) fetch: OnFetchRecordBuffered is called only in source.hookBuffered and OnFetchRecordUnbuffered only in the closure queued by source.hookDeferUnbuffered; hookBuffered/hookDeferUnbuffered are called only from the confirmed buffer/take functions; every store of a non-empty buffered fetch into source.buffered / sourceShare.buffered is followed by hookBuffered(&thatFetch); every clearing store is preceded by a copy of the field and followed on all paths by hookDeferUnbuffered(&copy.fetch, ...); discard passes polled=false, takes pass true; in the two takeNBuffered every advance of the buffered fetch (Topics/Partitions/Records re-slice) is paired with an append of the removed element to the returned or the stripped fetch (or is an advance over an emptied element), and both fetches reach hookDeferUnbuffered on every path; the closure queued by hookDeferUnbuffered captures only the flattened []*Record, the hook slice and the polled flag (never the *Fetch or a topics/partitions slice header, which callers compact in place afterwards) and calls OnFetchRecordUnbuffered(r, polled) for every captured record and hook; the gauges consumer.bufferedRecords/bufferedBytes are written only by hookBuffered (+int64(nrecs), +nbytes) and by both arms of hookDeferUnbuffered (-int64(nrecs), -nbytes), every exit of those functions has passed both Adds, and all walks accumulate nrecs/nbytes identically; " +
+			"fetch-buffered-before-publish: consumer.sourcesReadyForDraining grows only inside addSourceReadyForDraining, which is called only by source.fetch and source.shareFetch for their receiver; on every path to that publication hookBuffered has already run, no hookBuffered is reachable after it, the publication follows the store of the fetch and every buffering store reaches it (pollers may take and shrink the fetch in place as soon as the source is published); " +
 			"(3) dispatch: consumer.deferredFetchHooks is appended only by hookDeferUnbuffered and swapped to nil only in runDeferredFetchHooks and stopSession, under sourcesReadyMu, after being copied to a local whose every element is called; every call of a poller's fill closure (the only callers of the take functions) is followed on all paths by runDeferredFetchHooks(); every discardBuffered (only in stopSession) is followed by the asynchronous dispatch.",
 		NotDecided: "per-record pairing across interleavings of concurrent pollers and invalidations (schedule property); that user hook implementations terminate; exactly-once execution of the promise itself (C01).",
 		Run:        runC14,
@@ -34,6 +35,7 @@ func runC14(c *Ctx) {
 	c13sweepEveryIteration(c, m, "produce-close-sweep", "records buffered in the skipped topic/partition were reported to OnProduceRecordBuffered but are never failed at Close, so OnProduceRecordUnbuffered and their promise never run")
 	c14fetchCallers(c, m)
 	c14stores(c, m)
+	c14publishOrder(c, m)
 	c14partialTake(c, m)
 	c14capture(c, m)
 	c14gauges(c, m)
